@@ -296,6 +296,23 @@ def probe_document():
     return G.Document(G.Element(None, 'r', [], [x], nsdecls=[('p', 'urn:a:one')]))
 
 
+def redeclares_under_shadowed_prefix(doc):
+    """Second shape of the same finding: an element declares (p, T) although T is already declared further up the tree
+    under another prefix q that is *shadowed* at this element (q re-bound in between or on the element itself), e.g.
+    <a xmlns:q="T"><b xmlns:q="U"><c xmlns:p="T"/></b></a>. libxml2 finds T declared up the tree and drops p=T; at <c> the
+    URI T is then bound by no visible prefix (lxml writes the name with q, which means U there)."""
+    def walk(e, stack):
+        vis = {}
+        for (p, u) in stack + list(e.nsdecls):
+            vis[p] = u
+        for (p, t) in e.nsdecls:
+            for (q, u) in stack:
+                if u == t and q != p and vis.get(q) != t:
+                    return True
+        return any(walk(c, stack + list(e.nsdecls)) for c in e.children if isinstance(c, G.Element))
+    return walk(doc.root, [])
+
+
 def match_rebound_prefix(bucket, case, msg):
     """Only namespace-binding clauses (nsmap / tag / attribute names), and only on documents in which some element
     re-binds a visible prefix while the URI the prefix was bound to stays in scope under another prefix."""
@@ -303,7 +320,8 @@ def match_rebound_prefix(bucket, case, msg):
     if len(parts) < 2 or parts[0] not in ('obj', 'xml', 'xml-pretty') or parts[1] not in ('nsmap', 'tag', 'attr-names'):
         return False
     try:
-        return G.has_rebind_keeping_uri(G.from_json(case['model']))
+        doc = G.from_json(case['model'])
+        return G.has_rebind_keeping_uri(doc) or redeclares_under_shadowed_prefix(doc)
     except (KeyError, TypeError, ValueError):
         return False
 
@@ -420,6 +438,11 @@ def run_shard(ctx, shard):
     def fn(c, doc):
         if doc.meta.get('dropped_rebind_keeping_uri'):
             c.count('excluded_by_known_finding:rebound-prefix', doc.meta['dropped_rebind_keeping_uri'])
+        if exclude and redeclares_under_shadowed_prefix(doc):
+            # second shape of the open finding (re-declaration of a URI that is declared up the tree under a shadowed
+            # prefix): excluded while the finding's probe still fails, and counted
+            c.count('excluded_by_known_finding:rebound-prefix:shadowed-redeclaration')
+            return
         check_doc(c, doc)
     before = set(ctx.failures)
     hyp_collect(ctx, strat, fn, n, salt=shard[1], shrink=False)
